@@ -71,6 +71,9 @@ func main() {
 		if err := genSandbox(host, facts); err != nil {
 			fatal(err)
 		}
+		if err := genCache(host, facts); err != nil {
+			fatal(err)
+		}
 	}
 	if sel("purity") {
 		if err := genPurity(host, facts); err != nil {
